@@ -314,6 +314,69 @@ theorem copy_then_drop_loses (n : Nat) (buf : Bytes) (h : n < buf.length) (k : N
 example : (Conn.readsN .dropRest 2 11 ⟨[1, 2, 3, 4, 5], [[6, 7, 8], [9]]⟩).flatten = [1, 2, 6, 7, 8, 9] := by
   decide
 
+/-! ## pinned behaviour next to the property's domain (coverage round) -/
+
+/-- every option code, every verb: a single request `IAC verb opt` (any of the 4 × 256) is answered
+with exactly its one demanded reply and leaves no data and no parser state behind. -/
+theorem every_request_answered (v : Verb) (o : UInt8) :
+    openWith [255, v.code, o] = { ctrl := [], data := [], replies := Tok.answer (.neg v o) } := by
+  have h : WF [Tok.neg v o] := by intro t ht; simp at ht; subst ht; rfl
+  have e : encode [Tok.neg v o] = [255, v.code, o] := by simp [encode, Tok.wire]
+  have := negotiate_encode [Tok.neg v o] h {} rfl
+  rw [e] at this
+  simpa [openWith, delivered, answers, Tok.delivered] using this
+
+/-- bytes that arrive AFTER the negotiation phase (nothing was buffered) are handed to the reader
+exactly as the socket delivers them — negotiation sequences included: `Read` does not parse, and
+nothing is answered (the reply list belongs to `openWith` alone). The property's clauses speak
+about the opening phase; this pins what the code does afterwards. -/
+theorem late_bytes_pass_through (n : Nat) (hn : 1 ≤ n) (sock : List Bytes) (k : Nat)
+    (hk : (Conn.mk [] sock).size ≤ k) :
+    (Conn.readsN .whole n k ⟨(openWith []).data, sock⟩).flatten = sock.flatten := by
+  have := initial_buffer_conservation .whole (by decide) n hn ⟨[], sock⟩ k hk
+  simpa [openWith, negotiate] using this
+
+/-- non-vacuity / witness: `IAC DO 24` arriving after the phase reaches the reader as it is -/
+example : (Conn.readsN .whole 8192 3 ⟨(openWith []).data, [[255, 253, 24, 108]]⟩).flatten = [255, 253, 24, 108] := by
+  decide
+
+/-- subnegotiation `IAC SB payload IAC SE` is not mentioned by the property and not understood by
+the parser: `IAC SB` and `IAC SE` are dropped as two-byte commands and the payload between them is
+DELIVERED to the reader as data (for a payload without IAC). A server only sends SB for an option
+the client agreed to; the client agrees (`DO`) to every `WILL`, so this can happen. -/
+theorem subneg_payload_delivered (payload : Bytes) (hp : ∀ b ∈ payload, b ≠ 255) :
+    openWith ([255, 250] ++ payload ++ [255, 240]) =
+      { ctrl := [], data := payload, replies := [] } := by
+  let ts : List Tok := Tok.cmd 250 :: (payload.map Tok.data ++ [Tok.cmd 240])
+  have hwf : WF ts := by
+    intro t ht
+    simp only [ts, List.mem_cons, List.mem_append, List.mem_map, List.not_mem_nil, or_false] at ht
+    rcases ht with rfl | ⟨b, hb, rfl⟩ | rfl
+    · decide
+    · simpa [Tok.wf] using hp b hb
+    · decide
+  have henc : ∀ l : Bytes, (l.map Tok.data).flatMap Tok.wire = l := by
+    intro l; induction l with
+    | nil => rfl
+    | cons x xs ih => simp [Tok.wire, ih]
+  have hdel : ∀ l : Bytes, (l.map Tok.data).flatMap Tok.delivered = l := by
+    intro l; induction l with
+    | nil => rfl
+    | cons x xs ih => simp [Tok.delivered, ih]
+  have hans : ∀ l : Bytes, (l.map Tok.data).flatMap Tok.answer = [] := by
+    intro l; induction l with
+    | nil => rfl
+    | cons x xs ih => simp [Tok.answer, ih]
+  have e : encode ts = [255, 250] ++ payload ++ [255, 240] := by
+    simp [ts, encode, Tok.wire, List.flatMap_append, henc]
+  have := negotiate_encode ts hwf {} rfl
+  rw [e] at this
+  simpa [openWith, ts, delivered, answers, Tok.delivered, Tok.answer, List.flatMap_append, hdel, hans]
+    using this
+
+/-- non-vacuity: `SB TERMINAL-TYPE SEND SE` — the bytes 24, 1 reach the reader -/
+example : ∀ b ∈ ([24, 1] : Bytes), b ≠ 255 := by decide
+
 /-! ## the parser before the repair violates the property (finding F8) -/
 
 /-- Before the repair, after `IAC c` with `c` not a negotiation verb, every following non-verb byte
